@@ -42,6 +42,8 @@ def tt(name, d, nsym=None, rsym=None, label=True, dt='f'):
         r1 = ONE if k == d - 1 else sym('%s%d' % (rsym, k + 1))
         n = sym('%s%d' % (nsym, k))
         c = ARR((r0, n, r1), dt)
+        from .poly import Lin as _Lin
+        c.lg = _Lin(0)           # stored value = true value * 2**0
         if label:
             c.org = frozenset([('E', name, k)])
         cores.append(c)
@@ -263,9 +265,14 @@ ENTRY = {
     'stat.cdf_getter': [dict(x='f[m]')],
     'svd.matrix_skeleton': [dict(A='f[m,n]'),
                             dict(A='f[m,n]', give_to=L('l')),
-                            dict(A='f[m,n]', give_to=L('r'), rel=L(True))],
-    'svd.matrix_svd': [dict(A='f[m,n]')],
-    'svd.svd': [dict(Y_full='dense')],
+                            dict(A='f[m,n]', give_to=L('r'), rel=L(True),
+                                 e='rel', r='int:rmax'),
+                            dict(A='f[m,n]', give_to=L('l'), e='abs',
+                                 r='int:rmax')],
+    'svd.matrix_svd': [dict(A='f[m,n]'),
+                       dict(A='f[m,n]', e='abs', r='int:rmax')],
+    'svd.svd': [dict(Y_full='dense'),
+                dict(Y_full='dense', e='abs', r='int:rmax')],
     'svd.svd_matrix': [dict(Y_full='f[N,N]')],
     'svd.svd_incomplete': [dict(I='I[m,d]', Y='f[m]', idx='i[d+1]',
                                 idx_many='i[d]')],
@@ -293,8 +300,11 @@ ENTRY = {
                                            dict(Y='tt', i=L(1),
                                                 inplace=L(True))],
     'transformation.truncate': [dict(Y='tt'),
-                                dict(Y='tt', e='num', r='int:rmax',
+                                dict(Y='tt', e='rel', r='int:rmax',
                                      use_stab=L(True)),
+                                dict(Y='tt', e='rel', r='int:rmax'),
+                                dict(Y='tt', e='rel', r='int:rmax',
+                                     is_eigh=L(False)),
                                 dict(Y='tt', is_eigh=L(False)),
                                 dict(Y='tt', orth=L(False))],
     'vectors.vector_delta': [dict(q=L(3), i=L(5), v='num:v'),
@@ -388,6 +398,12 @@ def build(spec, name, d, label=True):
         return TUPLE([FLOAT(), FLOAT()])
     if spec == 'num':
         return FLOAT()
+    if spec == 'rel':
+        from fractions import Fraction as _F
+        return FLOAT(unit=_F(0))      # relative (dimensionless) accuracy
+    if spec == 'abs':
+        from fractions import Fraction as _F
+        return FLOAT(unit=_F(1))      # absolute accuracy, in data units
     if spec.startswith('num:'):
         return num(spec[4:])
     if spec.startswith('int:'):
